@@ -278,9 +278,12 @@ fn run_ops<'d, 's>(b: &mut BufferRef<'d, 's>, ops: &[Op], cx: &mut Cx<'d>) -> Op
                 }
             }
             Op::Extend { q, bs } => {
-                let mut it = bs.iter().cloned();
+                // the iterator's size_hint is advisory: whatever it claims (exact, nothing, too little,
+                // too much), extend must behave the same -- one capacity check per byte
+                let mode = (bs.len() + before + bs.first().copied().unwrap_or(0) as usize) % 5;
+                let mut it = Hinted { inner: bs.iter().cloned(), pulled: 0, mode, len: bs.len() };
                 let r = b.extend(&mut it);
-                let pulled = bs.len() - it.len();
+                let pulled = it.pulled;
                 cx.tr.push(format!("x{}{}", if r.is_ok() { '+' } else { '-' }, pulled));
                 let fit = bs.len().min(before);
                 cx.top().log.extend_from_slice(&bs[..fit]);
@@ -642,6 +645,7 @@ fn do_case(o: &mut Out, c: &Case) {
     if let Ok(mut cur) = CURRENT_CASE.lock() {
         *cur = format!("{} data={} spare={} caps={} prog={}", c.kind.txt(), hex(&c.data), hex(&c.spare), caps_txt(&c.caps), toks.join(" "));
     }
+    crumb(&format!("{} data={} spare={} caps={} prog={}", c.kind.txt(), hex(&c.data), hex(&c.spare), caps_txt(&c.caps), toks.join(" ")));
     PANICS_IN_FLIGHT.store(0, std::sync::atomic::Ordering::SeqCst);
     let out = exec(c);
     PANICS_IN_FLIGHT.store(0, std::sync::atomic::Ordering::SeqCst);
@@ -842,6 +846,33 @@ static LAST_PANIC: std::sync::Mutex<String> = std::sync::Mutex::new(String::new(
 static CURRENT_CASE: std::sync::Mutex<String> = std::sync::Mutex::new(String::new());
 static PANICS_IN_FLIGHT: std::sync::atomic::AtomicUsize = std::sync::atomic::AtomicUsize::new(0);
 
+/// an iterator whose size_hint may misreport (legal: size_hint must never be relied on for safety)
+struct Hinted<I> {
+    inner: I,
+    pulled: usize,
+    mode: usize,
+    len: usize,
+}
+impl<I: Iterator<Item = u8>> Iterator for Hinted<I> {
+    type Item = u8;
+    fn next(&mut self) -> Option<u8> {
+        let r = self.inner.next();
+        if r.is_some() {
+            self.pulled += 1;
+        }
+        r
+    }
+    fn size_hint(&self) -> (usize, Option<usize>) {
+        match self.mode {
+            0 => self.inner.size_hint(),
+            1 => (0, None),
+            2 => (0, Some(0)),
+            3 => (0, Some(self.len / 2)),
+            _ => (0, Some(self.len + 5)),
+        }
+    }
+}
+
 fn main() {
     // `guard` silences the panic hook; keep the location of the last panic for diagnosis, and name
     // the case when a second panic starts while the first one unwinds (a panicking Drop: the
@@ -866,6 +897,7 @@ fn main() {
 
 fn real_main() {
     let a = Args::parse();
+    install_crash_handler(&a);
     let mut o = Out::new(&a, "run/read: seeded random programs (trees of with_buffer closures: write / extend / advance / poke / remaining / nested view / capped nested view / reader fill / early exit by `?`, by consuming the view, or by dropping it unused; up to three nested levels below the root view) against Vec and ArrayVec (every capacity 0..40 resp. 0..32 and 40, every pre-existing length), byte slices and slice references (every length 0..40), each plain, capped once and capped twice (cap values around the remaining capacity, 0, usize::MAX); plus a sweep of every cap value 0..capacity+2 on every store. distinct = distinct (store kind, number of caps, exit, set of operation outcomes seen, nesting depth) signatures");
     let mut r = Rng::new(a.seed);
     let th = a.thorough();
